@@ -340,6 +340,7 @@ ANN_SCHEMAS = [
     ("annotated-tagstring", "x: '@A & @B' = __E1", [("x", None, "'@A & @B'", "__VE1", True)]),
     ("declaration", "x: int", [("x", None, "int", "__ptera_ABSENT", True)]),
     ("annotated-attribute", "o.y: int = __E1", [("o", ("attr", "y"), "int", "__VE1", True)]),
+    ("declared-attribute", "o.y: int", []),
 ]
 
 
@@ -358,6 +359,9 @@ def u_visit_annassign(c):
         return
     outs = out if isinstance(out, list) else [out]
     c.prove(f"{label}/output-compiles", instantiate_and_compile(outs) is None, only=["C01"])
+    if label == "declared-attribute":
+        c.prove("declared-attribute-left-untouched", len(outs) == 1 and PE.dump(outs[0]) == PE.dump(original), only=["C16", "C01"])
+        return
     name = evs[0][0]
     ann_key = PE.dump(tr_ann(evs[0][2]))
     inst = dec.get((name, ann_key), False)
@@ -366,6 +370,8 @@ def u_visit_annassign(c):
     exp = [(e[0], ev_sig(*e)[1], ann_key, PE.dump(parse_expr(e[3])), e[4])] if inst else []
     c.prove(f"{label}/event-carries-this-binding's-annotation", got == exp, note=f"{got} vs {exp}", only=["C02", "C11"])
     if label == "declaration":
+        if not inst:
+            c.prove("declaration/outside-the-capture-set-left-untouched(binds nothing)", len(outs) == 1 and PE.dump(outs[0]) == PE.dump(original), only=["C16", "C01"])
         # from the property (C16): a declared-only variable is supplied from outside or fails loudly; the marker is never bound unchecked
         leaks = marker_leaks(outs)
         c.prove("declaration/ABSENT-marker-only-inside-interact", not leaks, note=str(leaks), only=["C16"])
@@ -439,9 +445,6 @@ def u_visit_import(c):
     it, tr, dec = setup(c)
     k = c.choose(len(IMPORT_SCHEMAS), "schema")
     label, src, evs = IMPORT_SCHEMAS[k]
-    # `import a.b` binds `a`: the expected event needs the decision for 'a' to exist even though the code never asks
-    if label == "import-dotted":
-        dec[("a", None)] = bool(c.choose(2, "instrument"))
     check_schema(c, it, tr, dec, src, evs, label)
 
 
@@ -647,7 +650,8 @@ def u_visit_functiondef(c):
         c.prove(f"{label}/output-compiles", bad is None, note=str(bad), only=["C01"])
     erased, problems = PE.erase(copy.deepcopy(out), free_vars=free)
     want = copy.deepcopy(original)
-    c.prove(f"{label}/transparent:erase(visit(f))~f", PE.dump(erased) == PE.dump(want), note=PE.dump(erased)[:500], only=["C01"])
+    c.prove(f"{label}/transparent:erase(visit(f))~f", PE.dump(PE.strip_trailing_return_none(erased)) == PE.dump(PE.strip_trailing_return_none(want)),
+            note=PE.dump(erased)[:500], only=["C01"])
     for k_ in sorted({p.rule for p in problems}):
         c.prove(f"{label}/{k_}", False, note="; ".join(p.what for p in problems if p.rule == k_), only=["C01"])
     # ---- C06: brackets
@@ -791,3 +795,135 @@ def u_collector(c):
         c.prove(f"{label}/provenance-agrees-with-python:{kind}", prov.get(nm) == kind, note=f"{nm}: ptera={prov.get(nm)} python={kind}")
     for nm, kind in expect.items():
         c.prove(f"{label}/spec-self-check", any(s.get_name() == nm for s in fsym.get_symbols()), kind="auxiliary")
+
+
+# ---------------------------------------------------------------------------------------------
+# transform(): the orchestration around the transformer (bounded: sample functions in a real module file)
+# ---------------------------------------------------------------------------------------------
+SAMPLE_MODULE = '''
+GLOBAL = 10
+
+def plain(a, b=2):
+    # the sum
+    c = a + b
+    return c + GLOBAL
+
+def outer(k):
+    def closure(x):
+        y = x + k
+        return y
+    return closure
+
+def gen(n):
+    for i in range(n):
+        yield i
+
+def annotated(x: "@T", *rest, flag=False, **kw):
+    """doc"""
+    z: int = x
+    return z
+
+class K:
+    def method(self, v):
+        w = v * 2
+        return w
+'''
+
+
+@unit("transform-orchestration", ["C01", "C10", "C05", "C14"], [TR + ":transform", TR + ":_compile", TR + ":PteraTransformer.__init__",
+                                                                 TR + ":ExternalVariableCollector.__init__", TR + ":_readline_mock", TR + ":_standard_info",
+                                                                 TR + ":_Conformer.__init__", TR + ":_gensym"],
+      mode="bounded", bound="five sample functions (plain, closure, generator, annotated/varargs/docstring, method) x {all variables, one variable}; "
+                            "inspect/tokenize/compile/exec executed natively on the concrete function",
+      assumed=["inspect.getsource / getsourcelines / getsourcefile return the text the function was compiled from",
+               "compile() and exec() of the rewritten tree behave as CPython documents"])
+def u_transform_orchestration(c):
+    """transform(fn, proceed, to_instrument): executed from its real body on real function objects.  The original function and the
+    module's global binding of its name are left untouched; the result is a NEW function with the same name, defaults and closure
+    cells; its __ptera_info__ table has exactly the names the function binds or reads (plus the meta-variables) with the provenance
+    Python's scoping gives them; __ptera_token__ names a global holding the new function (self-reference for proceed)."""
+    import importlib.util
+    import os
+    import shutil
+    import symtable
+    import tempfile
+
+    it = Interp(c)
+
+    def hook(mod, name):
+        if mod == "ast" and name in ("NodeTransformer", "NodeVisitor"):
+            return it.get_global(AST, name)
+        if mod == "codefind":
+            import codefind
+
+            return getattr(codefind, name) if name else codefind
+        return None
+
+    it.import_hook = hook
+    it.module_env(AST).vars["iter_fields"] = ast.iter_fields
+    it.module_env(AST).vars["AST"] = ast.AST
+    it.policies[AST + ":NodeVisitor.visit_Constant"] = lambda it_, f, a, k: it_.call(it_.getattr(a[0], "generic_visit"), [a[1]], {})
+    for nm in ("inspect", "tokenize", "sys", "types"):
+        it.module_env(TR).vars[nm] = __import__(nm)
+    d = tempfile.mkdtemp(prefix="pvc_transform_")
+    try:
+        p = os.path.join(d, f"pvc_sample_{c.new_id()}.py")
+        open(p, "w").write(SAMPLE_MODULE)
+        spec = importlib.util.spec_from_file_location(os.path.basename(p)[:-3], p)
+        mod = importlib.util.module_from_spec(spec)
+        spec.loader.exec_module(mod)
+        which = c.choose(5, "function")
+        fn = [mod.plain, mod.outer(5), mod.gen, mod.annotated, mod.K.method][which]
+        label = ["plain", "closure", "generator", "annotated", "method"][which]
+        proceed = object()
+        everything = bool(c.choose(2, "all-variables"))
+        Element = it.get_global("ptera.selector", "Element")
+        first_local = {"plain": "c", "closure": "y", "generator": "i", "annotated": "z", "method": "w"}[label]
+        to_instrument = True if everything else [it.call(Element, [], dict(name=first_local, capture=first_local))]
+        glb = fn.__globals__
+        before_name = glb.get(fn.__name__, "<<missing>>")
+        code_before, defaults_before, cells_before = fn.__code__, fn.__defaults__, [cl.cell_contents for cl in (fn.__closure__ or ())]
+        st, new = run(it, it.get_global(TR, "transform"), [fn, proceed], dict(to_instrument=to_instrument))
+        c.prove(f"{label}/transform-does-not-raise", st == "ok", note=repr(new) if st != "ok" else "")
+        if st != "ok":
+            return
+        c.prove(f"{label}/returns-a-new-function-with-the-same-name-and-defaults", new is not fn and callable(new) and new.__name__ == fn.__name__
+                and new.__defaults__ == defaults_before and new.__kwdefaults__ == fn.__kwdefaults__)
+        c.prove(f"{label}/original-function-untouched", fn.__code__ is code_before and fn.__defaults__ == defaults_before
+                and not hasattr(fn, "__ptera_info__"))
+        c.prove(f"{label}/global-binding-of-the-name-restored", glb.get(fn.__name__, "<<missing>>") is before_name or
+                (before_name == "<<missing>>" and glb.get(fn.__name__) is None))
+        c.prove(f"{label}/closure-cells-preserved", [cl.cell_contents for cl in (new.__closure__ or ())] == cells_before
+                and new.__code__.co_freevars == fn.__code__.co_freevars)
+        tok = getattr(new, "__ptera_token__", None)
+        c.prove(f"{label}/token-is-a-global-holding-the-new-function", isinstance(tok, str) and glb.get(tok) is new)
+        info = getattr(new, "__ptera_info__", None)
+        c.prove(f"{label}/info-table-present", isinstance(info, dict))
+        if isinstance(info, dict):
+            # oracle: CPython's symbol table of the same source
+            import inspect as _inspect
+            import textwrap as _tw
+
+            src = _tw.dedent(_inspect.getsource(fn))
+            wrapped = ("def __o():\n    k = 0\n" + "\n".join("    " + ln for ln in src.splitlines())) if label == "closure" else src
+            top = symtable.symtable(wrapped, "<s>", "exec")
+            fs = top.get_children()[0]
+            if label == "closure":
+                fs = fs.get_children()[0]
+            want = {}
+            for sym in fs.get_symbols():
+                kind = "argument" if sym.is_parameter() else "closure" if sym.is_free() else "body" if sym.is_local() else "external" if sym.is_global() else None
+                if kind:
+                    want[sym.get_name()] = kind
+            meta = {"#enter", "#exit", "#receive", "#yield"}
+            c.prove(f"{label}/info-keys-are-the-function's-names-plus-meta", set(info) == set(want) | meta, note=f"{sorted(info)} vs {sorted(want)}")
+            c.prove(f"{label}/provenance-agrees-with-python", all(isinstance(info.get(n), dict) and info[n].get("provenance") == k_ for n, k_ in want.items()),
+                    note=str({n: (info.get(n) or {}).get("provenance") for n in want}))
+            c.prove(f"{label}/entries-carry-name-annotation-doc-location", all(set(e) == {"name", "annotation", "provenance", "doc", "location"} and e["name"] == n
+                                                                              for n, e in info.items()))
+            if label == "plain":
+                c.prove("plain/comment-above-a-binding-becomes-its-doc", info["c"]["doc"] == "the sum")
+        for k_ in [k_ for k_ in list(glb) if k_.startswith("__ptera_") or k_.startswith("_ptera__")]:
+            pass
+    finally:
+        shutil.rmtree(d, ignore_errors=True)
